@@ -4,14 +4,66 @@ package lexer
 
 // Contracts for the spec lexer, checked by /verif/bin/govc (comment-only file; compiles to nothing).
 
+// --- lexical vocabulary (C08, C18; DESIGN.md 4.1): from doc.go "Spec Grammar" and the statement of C08 ---------------
+//@ pure func blank(c int) bool = c == ' ' || c == '\t'
+//@ pure func letter(c int) bool = (c >= 'a' && c <= 'z') || (c >= 'A' && c <= 'Z')
+//@ pure func upper(c int) bool = c >= 'A' && c <= 'Z'
+//@ pure func okArg(c int) bool = (c >= 'A' && c <= 'Z') || (c >= '0' && c <= '9') || c == '_'
+//@ pure func okLong(c int, first bool) bool = letter(c) || (c >= '0' && c <= '9') || c == '_' || (!first && c == '-')
+// ext: how many bytes of the spec a token covers (a folded sequence drops its '-' from Val)
+//@ pure func ext(typ string, val string) int = typ == TTOptSeq ? len(val) + 1 : len(val)
+// tokShape: type, text and position of one token are faithful to the spec string
+//@ pure opaque func tokShape(u string, typ string, val string, pos int) bool =
+//@     0 <= pos && pos + ext(typ, val) <= len(u) && len(val) >= 1 &&
+//@     ((typ == TTShortOpt || typ == TTLongOpt || typ == TTOptValue || typ == TTArg || typ == TTOptions) ==> val == u[pos:pos+len(val)]) &&
+//@     (typ == TTOptSeq ==> val == u[pos+1:pos+1+len(val)]) &&
+//@     (typ == TTOpenSq ? (val == "[" && u[pos] == '[') :
+//@      typ == TTCloseSq ? (val == "]" && u[pos] == ']') :
+//@      typ == TTOpenPar ? (val == "(" && u[pos] == '(') :
+//@      typ == TTClosePar ? (val == ")" && u[pos] == ')') :
+//@      typ == TTChoice ? (val == "|" && u[pos] == '|') :
+//@      typ == TTRep ? (val == "..." && u[pos] == '.' && u[pos+1] == '.' && u[pos+2] == '.') :
+//@      typ == TTDoubleDash ? (val == "--" && u[pos] == '-' && u[pos+1] == '-' && (pos+2 == len(u) || u[pos+2] == ' ')) :
+//@      typ == TTShortOpt ? (len(val) == 2 && u[pos] == '-' && letter(u[pos+1]) && (pos+2 == len(u) || (!letter(u[pos+2]) && u[pos+2] != '-'))) :
+//@      typ == TTOptSeq ? (len(val) >= 2 && u[pos] == '-' && (forall i int :: pos+1 <= i && i < pos+1+len(val) ==> letter(u[i])) &&
+//@                         (pos+1+len(val) == len(u) || (!letter(u[pos+1+len(val)]) && u[pos+1+len(val)] != '-'))) :
+//@      typ == TTLongOpt ? (len(val) >= 3 && u[pos] == '-' && u[pos+1] == '-' && (forall i int :: pos+2 <= i && i < pos+len(val) ==> okLong(u[i], i == pos+2)) &&
+//@                          (pos+len(val) == len(u) || !okLong(u[pos+len(val)], false))) :
+//@      typ == TTOptValue ? (len(val) >= 4 && u[pos] == '=' && u[pos+1] == '<' && u[pos+len(val)-1] == '>' &&
+//@                           (forall i int :: pos+1 <= i && i < pos+len(val)-1 ==> u[i] != '>')) :
+//@      (typ == TTArg || typ == TTOptions) ? (upper(u[pos]) && (forall i int :: pos+1 <= i && i < pos+len(val) ==> okArg(u[i])) &&
+//@                           (pos+len(val) == len(u) || !okArg(u[pos+len(val)])) && ((typ == TTOptions) <==> (val == "OPTIONS"))) :
+//@      false)
+// blankRange: every byte of u[a:b] is a blank
+//@ pure opaque func blankRange(u string, a int, b int) bool = forall i int :: a <= i && i < b ==> blank(u[i])
+// gapStart(k): where token k-1 ends (0 for k = 0)
+//@ pure func gapStart(k int, POS array[*Token]int, TYP array[*Token]string, VAL array[*Token]string, res []*Token) int =
+//@     k <= 0 ? 0 : POS[res[k-1]] + ext(TYP[res[k-1]], VAL[res[k-1]])
+
 //@ func Tokenize
+//@   reveal blankRange, tokShape
+//@   ensures error: result1 != nil ==> result0 == nil && isType(result1, "*ParseError") &&
+//@       asType(result1, "*ParseError").Input == usage && 0 <= asType(result1, "*ParseError").Pos && asType(result1, "*ParseError").Pos <= len(usage)
+//@   ensures shapes: result1 == nil ==> (forall k int :: 0 <= k && k < len(result0) ==> result0[k] != nil && tokShape(usage, result0[k].Typ, result0[k].Val, result0[k].Pos))
+//@   ensures ordered: result1 == nil ==> (forall k int :: {result0[k]} 0 <= k && k < len(result0) ==> gapStart(k, fieldHeap(result0[0].Pos), fieldHeap(result0[0].Typ), fieldHeap(result0[0].Val), result0) <= result0[k].Pos)
+//@   ensures gaps-blank: result1 == nil ==> (forall k int :: {result0[k]} 0 <= k && k < len(result0) ==> blankRange(usage, gapStart(k, fieldHeap(result0[0].Pos), fieldHeap(result0[0].Typ), fieldHeap(result0[0].Val), result0), result0[k].Pos))
+//@   ensures tail-blank: result1 == nil ==> blankRange(usage, gapStart(len(result0), fieldHeap(result0[0].Pos), fieldHeap(result0[0].Typ), fieldHeap(result0[0].Val), result0), len(usage))
 //@   loop 1 invariant bounds: 0 <= pos && pos <= eof && eof == len(usage)
+//@   loop 1 invariant live: forall k int :: {res[k]} 0 <= k && k < len(res) ==> res[k] != nil && allocated(res[k])
+//@   loop 1 invariant tokens: forall k int :: {res[k]} 0 <= k && k < len(res) ==> tokShape(usage, res[k].Typ, res[k].Val, res[k].Pos)
+//@   loop 1 invariant ordered: forall k int :: {res[k]} 0 <= k && k < len(res) ==> gapStart(k, fieldHeap(res[0].Pos), fieldHeap(res[0].Typ), fieldHeap(res[0].Val), res) <= res[k].Pos
+//@   loop 1 invariant gaps-blank: forall k int :: {res[k]} 0 <= k && k < len(res) ==> blankRange(usage, gapStart(k, fieldHeap(res[0].Pos), fieldHeap(res[0].Typ), fieldHeap(res[0].Val), res), res[k].Pos)
+//@   loop 1 invariant tail: gapStart(len(res), fieldHeap(res[0].Pos), fieldHeap(res[0].Typ), fieldHeap(res[0].Val), res) <= pos && blankRange(usage, gapStart(len(res), fieldHeap(res[0].Pos), fieldHeap(res[0].Typ), fieldHeap(res[0].Val), res), pos)
 //@   loop 1 decreases eof - pos
 //@   loop 2 invariant bounds: 0 <= start && start < pos && pos <= eof && eof == len(usage)
+//@   loop 2 invariant letters: forall i int :: start+1 <= i && i < pos ==> letter(usage[i])
 //@   loop 2 decreases eof - pos
-//@   loop 3 invariant bounds: 0 <= start && start < pos && pos0 <= pos && pos <= eof && eof == len(usage)
+//@   loop 3 invariant bounds: 0 <= start && start < pos && pos0 <= pos && pos <= eof && eof == len(usage) && pos0 == start+2
+//@   loop 3 invariant chars: forall i int :: pos0 <= i && i < pos ==> okLong(usage[i], i == pos0)
 //@   loop 3 decreases eof - pos
 //@   loop 4 invariant bounds: 0 <= start && start < pos && pos <= eof && eof == len(usage) && !closed
+//@   loop 4 invariant open: forall i int :: start+1 <= i && i < pos ==> usage[i] != '>'
 //@   loop 4 decreases eof - pos
 //@   loop 5 invariant bounds: 0 <= start && start < pos && pos <= eof && eof == len(usage)
+//@   loop 5 invariant chars: forall i int :: start+1 <= i && i < pos ==> okArg(usage[i])
 //@   loop 5 decreases eof - pos
